@@ -118,7 +118,11 @@ def judge(w, sname, uni, members, s, attr, sought_name, tlist):
             return None
         return f"raised-{type(e).__name__}"
     if isinstance(tlist, tuple):
-        return None          # the traversal itself raises: nothing is stated
+        # the traversal itself raises (unknown link class, or a start outside the universe): nothing
+        # is stated about the answer, except that it is never a vertex outside the universe
+        if r is not None and uni is not None and w.vid(r) not in members:
+            return "returned-vertex-outside-universe"
+        return None
     exp = None
     for x in tlist:
         vx = w.v[x]
@@ -140,6 +144,14 @@ def judge(w, sname, uni, members, s, attr, sought_name, tlist):
     if exp is None:
         return "returned-match-that-traversal-does-not-list"
     return "returned-later-match-not-the-first"
+
+
+def _starts(nv, uni, members, few):
+    """every member, and (for a real universe) every vertex outside it as well"""
+    pool = set(range(nv)) if uni is not None else set(members)
+    if few:
+        pool &= {0, nv // 2, nv - 1}
+    return sorted(pool)
 
 
 def per_state(spec, seq, w0):
@@ -167,7 +179,7 @@ def per_state(spec, seq, w0):
         trav = {}
         few = cfg.get("starts") == "few"
         for uname, uni, members in unis:
-            for s in (sorted({0, nv // 2, nv - 1} & set(members)) if few else sorted(members)):
+            for s in _starts(nv, uni, members, few):
                 for sname, (_, tfn) in SEARCHES.items():
                     try:
                         trav[(uname, s, sname)] = [w.vid(x) for x in tfn(uni, w.v[s])]
@@ -178,7 +190,7 @@ def per_state(spec, seq, w0):
             present = set(lab) - {"-"}
             for uname, uni, members in unis:
                 ukind = "none" if uni is None else ("all" if len(members) == nv else "partial")
-                for s in (sorted({0, nv // 2, nv - 1} & set(members)) if few else sorted(members)):
+                for s in _starts(nv, uni, members, few):
                     for sname in SEARCHES:
                         tl = trav[(uname, s, sname)]
                         for attr, sought in soughts:
